@@ -1538,6 +1538,10 @@ func (app *App) performSwitchover(clusterState map[string]*nodestate.NodeState, 
 		app.logger.Error().Msgf("failed to set external replication on new master")
 	}
 
+	// the new master starts with a clean failure clock: a timestamp left over from the time
+	// it was a failing replica must not count towards its failover delay
+	app.t.Clean(NodeFailedAt, newMaster)
+
 	// set new master in dcs
 	_, err = app.SetMasterHost(newMaster)
 	if err != nil || app.emulateError("promote_set_to_dcs") {
